@@ -548,7 +548,9 @@ func checkC06(p *Prog, l *Ledger) {
 	// indexes, division, shifts, nil maps and pointers) for the evaluator and the built-ins
 	l.AsOnlyWhere(map[string]string{"C07/P1-": "C06/S0-fault-detected/no-panic/P1-", "C07/P2-": "C06/S0-fault-detected/no-panic/P2-", "C07/P3-": "C06/S0-fault-detected/no-panic/P3-",
 		"C07/P4-": "C06/S0-fault-detected/no-panic/P4-", "C07/P5-": "C06/S0-fault-detected/no-panic/P5-", "C07/P6-": "C06/S0-fault-detected/no-panic/P6-", "C07/P7-": "C06/S0-fault-detected/no-panic/P7-"},
-		func(o *Obligation) bool { return strings.HasPrefix(o.Pos, "interpreter/") || strings.HasPrefix(o.Pos, "environment/") }, func() { checkC07(p, l) })
+		func(o *Obligation) bool {
+			return strings.HasPrefix(o.Pos, "interpreter/") || strings.HasPrefix(o.Pos, "environment/")
+		}, func() { checkC07(p, l) })
 	// the line a diagnostic names is the line of the construct: each node's Line is fed from the token the grammar
 	// associates with it (C01's wiring table) — a declarator's line is its own name's line, not where the statement began
 	l.AsOnlyWhere(map[string]string{"C01/S5-wiring": "C06/S4-parser-line/node-wiring"}, func(o *Obligation) bool { return o.Status == Discharged || strings.Contains(o.Why, "Line") }, func() { checkC01(p, l) })
